@@ -7,6 +7,36 @@ from . import rules as extra_rules
 DIR_RE = re.compile(r"^#([a-z][a-z-]*)\b(.*)$")
 
 
+_EXPANDED = {}
+
+
+def expand_sample(name, repo_root, verif_root):
+    """compile samples/<name> against the repo's current working tree and return rustc's macro-expanded source"""
+    import subprocess, shutil
+    key = (name, repo_root)
+    if key in _EXPANDED:
+        return _EXPANDED[key]
+    src = os.path.join(verif_root, "samples", name)
+    tag = hashlib.sha1(repo_root.encode()).hexdigest()[:8]
+    work = os.path.join(verif_root, "build", "samples", f"{name}-{tag}")
+    os.makedirs(os.path.join(work, "src"), exist_ok=True)
+    open(os.path.join(work, "Cargo.toml"), "w").write(open(os.path.join(src, "Cargo.toml.in")).read().replace("@REPO@", repo_root))
+    shutil.copy(os.path.join(src, "src", "lib.rs"), os.path.join(work, "src", "lib.rs"))
+    lock = os.path.join(repo_root, "Cargo.lock")
+    if os.path.exists(lock):
+        shutil.copy(lock, os.path.join(work, "Cargo.lock"))
+    env = dict(os.environ, CARGO_NET_OFFLINE="true")
+    cmd = ["cargo", "+nightly", "rustc", "--offline", "--lib", "--target-dir", os.path.join(verif_root, "build", "xt"), "--", "-Zunpretty=expanded"]
+    try:
+        p = subprocess.run(cmd, cwd=work, env=env, capture_output=True, text=True, timeout=600)
+    except subprocess.TimeoutExpired:
+        raise ToolError(f"TOOL: expansion of sample {name} timed out")
+    if p.returncode != 0 or "fn execute_command" not in p.stdout:
+        raise ToolError(f"TOOL: sample {name} does not compile against {repo_root} (the macro rejected it or the crate is broken): {p.stderr[-1500:]}")
+    _EXPANDED[key] = p.stdout
+    return p.stdout
+
+
 class ToolError(Exception):
     """exit 2: never an alarm, never a pass"""
 
@@ -56,6 +86,10 @@ def build_unit(tmpl_path, repo_root, canary=False, verif_root=None):
         if rel not in sources:
             if "!" in rel:
                 sources[rel] = macro_instance(rel)
+                return sources[rel]
+            if rel.startswith("@"):
+                sources[rel] = Source(rel, expand_sample(rel[1:], repo_root, verif_root))
+                gen.rewrites.append({"item": rel, "file": rel, "rule": "EXPAND", "what": f"sample crate samples/{rel[1:]} compiled against {repo_root} with `cargo +nightly rustc -- -Zunpretty=expanded` (the real proc-macro's output)"})
                 return sources[rel]
             p = os.path.join(repo_root, rel)
             if not os.path.exists(p):
